@@ -35,8 +35,10 @@ Does NOT require (never flagged):
  * any treatment of names that are not bound at the use (bound later, only in a sibling/inner scope,
    only conditionally): programs on which CPython itself raises NameError/UnboundLocalError are
    dropped (counted as `dropped_precondition`);
- * $XONSH_BUILTINS_TO_CMD=True behaviour (left unset); a bare builtin name may be routed through
-   `__xonsh__.builtin_cmd`, it only has to evaluate without spawning;
+ * "commands win over builtins" under $XONSH_BUILTINS_TO_CMD=True; a bare builtin name may be routed
+   through `__xonsh__.builtin_cmd` - unless a session namespace binds that name (then the rewrite would
+   read the builtin instead of the session value: reported).  The switch is only a second configuration
+   of the session histories (first == "WS"), where names bound in the session must stay Python;
  * anything about constructs xonsh's context-free parser already parses differently from CPython
    (C01's business): dropped and counted as `dropped_c01`;
  * bare-vs-explicit differences that exist without any binding involved (C03's business): such use
@@ -443,7 +445,12 @@ def xonsh_calls(tree):
 
 
 class _BuiltinCmdToName(ast.NodeTransformer):
-    """`__xonsh__.builtin_cmd('len')` (bare builtin name with $XONSH_BUILTINS_TO_CMD unset) -> `len`."""
+    """`__xonsh__.builtin_cmd('len')` (bare builtin name with $XONSH_BUILTINS_TO_CMD unset) -> `len`.
+    deny: names bound in the session namespaces - for them the rewrite is NOT a reading of the builtin
+    (it would yield the builtin instead of the session value) and is left in place, i.e. reported."""
+
+    def __init__(self, deny=()):
+        self.deny = set(deny)
 
     def visit_Call(self, node):
         self.generic_visit(node)
@@ -457,6 +464,7 @@ class _BuiltinCmdToName(ast.NodeTransformer):
             and isinstance(node.args[0], ast.Constant)
             and isinstance(node.args[0].value, str)
             and node.args[0].value.isidentifier()  # only ever emitted for a bare name that is a builtin at compile time
+            and node.args[0].value not in self.deny
         ):
             return ast.Name(id=node.args[0].value, ctx=ast.Load())
         return node
@@ -751,7 +759,8 @@ def _run_seq(steps, sep, how):
     w = World()
     g, _ = w.namespaces({"globals": ["l", "m", "k"], "locals": []})
     loc = {} if sep else g
-    names = sorted({st[2] for st in steps if st[0] != "src"} | set(S.HIST_NAMES))
+    names = sorted(({st[2] for st in steps if st[0] in ("add", "rem")} | set(S.HIST_NAMES)) - BUILTIN_NAMES)  # never touch real builtins
+    env_saved = {}
     saved = {nm: getattr(builtins, nm, _ABSENT) for nm in names}
     for nm, v in saved.items():
         if v is not _ABSENT:
@@ -774,6 +783,12 @@ def _run_seq(steps, sep, how):
     signal.signal(signal.SIGVTALRM, _alarm)
     try:
         for st in steps:
+            if st[0] == "env":
+                if how != "ref":
+                    env_saved.setdefault(st[1], XSH.env.get(st[1]))
+                    XSH.env[st[1]] = st[2]
+                out.append(None)
+                continue
             if st[0] in ("add", "rem"):
                 _, where, nm = st
                 if st[0] == "add":
@@ -797,6 +812,7 @@ def _run_seq(steps, sep, how):
             del SPAWNS[:]
             del captured[:]
             exc = None
+            pre = sorted((set(g) | set(loc)) & (set(S.HIST_BUILTIN_NAMES) | set(S.HIST_NAMES)))  # session-bound when this input is compiled
             signal.setitimer(signal.ITIMER_VIRTUAL, CPU_LIMIT_S)
             try:
                 if how == "ref":
@@ -811,10 +827,15 @@ def _run_seq(steps, sep, how):
                 signal.setitimer(signal.ITIMER_VIRTUAL, 0)
             ns = _ns_summary(g, loc)
             ns["b"] = {nm: tag_of(getattr(builtins, nm)) for nm in names if hasattr(builtins, nm)}
-            out.append({"exc": exc, "log": [list(x) for x in w.log[n0:]], "ns": ns, "spawns": list(SPAWNS), "tree": captured[-1] if captured else None})
+            out.append({"exc": exc, "log": [list(x) for x in w.log[n0:]], "ns": ns, "spawns": list(SPAWNS), "tree": captured[-1] if captured else None, "pre": pre})
     finally:
         if execer is not None:
             del execer.parse
+        for k_, v_ in env_saved.items():
+            if v_ is None:
+                XSH.env.pop(k_, None)
+            else:
+                XSH.env[k_] = v_
         for nm, v in saved.items():
             if v is _ABSENT:
                 if hasattr(builtins, nm):
@@ -848,9 +869,11 @@ def eval_hist_steps(steps, sep):
                 return {"status": "drop:precondition"}
             exp_tree = ast.parse(text)
             if g["tree"] is not None:
-                tree = _BuiltinCmdToName().visit(g["tree"])
+                tree = _BuiltinCmdToName(deny=g["pre"]).visit(g["tree"])
                 if any(c.startswith("subproc_") for c in xonsh_calls(tree)):
                     sig, obs = "py:cmd", _unparse(tree)
+                elif "builtin_cmd" in xonsh_calls(tree):
+                    sig, obs = "py:builtin-instead-of-session-value", _unparse(tree)
                 else:
                     d = first_diff(tree, exp_tree)
                     if d:
@@ -1137,7 +1160,7 @@ def _check(item):
 def _fake_bin(d):
     """executables named like every name the programs use: 'the command exists' is the adversarial
     situation for a Python-vs-command decision (nothing is ever launched - run_subproc is recorded)."""
-    for nm in ("n", "m", "l", "k", "len", "zip", "z", "not", "def", "x"):
+    for nm in ("n", "m", "l", "k", "len", "zip", "z", "not", "def", "x", "id", "type"):
         p = os.path.join(d, nm)
         with open(p, "w") as f:
             f.write("#!/bin/sh\nexit 0\n")
@@ -1432,6 +1455,21 @@ def enumerate_items(thorough):
 
         def firsts(u):
             return ("W", "WC") if S.USES[u]["cmd"] else ("W",)
+
+        # session names spelled like a builtin (bound by an EARLIER input / the harness), and the
+        # $XONSH_BUILTINS_TO_CMD switch as a second configuration (first == "WS")
+        for ev in (hs2 + hs3 if thorough else hs2):
+            if any(e[1] == "B" for e in ev):
+                continue
+            for mode in S.hist_modes(len(ev), mixed=thorough):
+                for u in uses:
+                    for name in S.HIST_BUILTIN_NAMES + ("n",):
+                        for first in ("W", "WS"):
+                            if name == "n" and first == "W":
+                                continue  # already above
+                            add(("hi", (first, mode, ev, u, "head", name)))
+                            if thorough or u in core:
+                                add(("hi", (first, mode, ev, u, "arg", name)))
 
         for ev in (hs2 + hs3 if thorough else hs2):
             for mode in S.hist_modes(len(ev)):
